@@ -49,13 +49,8 @@ def run(ctx, rep, tier):
     rep.rule("G14", "initial allocation = cells with positive demand", 1)
     rep.rule("TW", "refine/coarsen X/Y twins agree", 2)
     for fld, ok in WRITERS.items():
-        ws = field_writes(ctx, H + fld)
-        bad = [(f, x, u) for f, x, u in ws if f.short not in ok and u.why != "constructor initialiser"]
-        if bad:
-            for f, x, u in bad:
-                rep.violation("W6", u.node, f, "write to %s in %s" % (fld, f.short), "%s; allowed: %s" % (u.why, sorted(ok)), key="%s|writes %s" % (f.short, fld))
-        else:
-            rep.holds("W6", "-", None, "%s writers" % fld, "%s" % sorted({f.short for f, _x, _u in ws}))
+        from .common import check_writers
+        check_writers(ctx, rep, "W6", H + fld, ok, fld)
     # ---- R7a ----
     for f in prog.funcs.values():
         if f.cls != CQ + "HierarchicalDensityPlacement":
@@ -130,17 +125,32 @@ def run(ctx, rep, tier):
     # reallocation loops
     loops = [for_loop_info(x) for x in walk(ro.body) if x.get("kind") == "ForStmt"]
     loops = [l for l in loops if l]
-    cells_loop = [l for l in loops if l["hi"] and pretty(l["hi"]) == "cells.size()"]
-    bins_loop = [l for l in loops if l["hi"] and pretty(l["hi"]) == "bins.size()"]
-    okc = cells_loop and cells_loop[0]["lo"] == ("lit", "0") and cells_loop[0]["step"] == 1 and loop_has_early_exit(cells_loop[0]["body"]) is None \
-        and not any(y.get("kind") in ("ContinueStmt", "IfStmt") for y in walk(cells_loop[0]["body"]))
-    okb = bins_loop and bins_loop[0]["lo"] == ("lit", "0") and bins_loop[0]["step"] == 1 and loop_has_early_exit(bins_loop[0]["body"]) is None \
-        and any(callee_info(y)["qname"] == H + "setBinCells" for y in walk(bins_loop[0]["body"]) if y.get("kind") == "CXXMemberCallExpr")
-    if okc:
+    # the two reallocation loops, identified by what they do: one indexes the transport assignment, the other calls setBinCells
+    def body_has(l, pred):
+        return any(pred(y) for y in walk(l["body"]))
+    cells_loop = [l for l in loops if l["hi"] and l["hi"][0] == "call" and l["hi"][1] == "size" and
+                  body_has(l, lambda y: y.get("kind") == "CXXMemberCallExpr" and callee_info(y)["name"] == "push_back" and
+                           canon(callee_info(y)["obj"])[0] == "index" and canon(callee_info(y)["obj"])[2][0] == "index")]
+    bins_loop = [l for l in loops if l["hi"] and l["hi"][0] == "call" and l["hi"][1] == "size" and
+                 body_has(l, lambda y: y.get("kind") == "CXXMemberCallExpr" and callee_info(y)["qname"] == H + "setBinCells")]
+    if not cells_loop or not bins_loop:
+        rep.unknown("R7c", ro.decl, ro, "reallocation loops", "loop filling the per-bin lists from the assignment / loop calling setBinCells not found")
+        cells_loop = bins_loop = None
+    okc = okb = None
+    if cells_loop is not None:
+      okc = cells_loop and cells_loop[0]["lo"] == ("lit", "0") and cells_loop[0]["step"] == 1 and loop_has_early_exit(cells_loop[0]["body"]) is None \
+          and not any(y.get("kind") in ("ContinueStmt", "IfStmt") for y in walk(cells_loop[0]["body"]))
+      okb = bins_loop and bins_loop[0]["lo"] == ("lit", "0") and bins_loop[0]["step"] == 1 and loop_has_early_exit(bins_loop[0]["body"]) is None \
+          and any(callee_info(y)["qname"] == H + "setBinCells" for y in walk(bins_loop[0]["body"]) if y.get("kind") == "CXXMemberCallExpr")
+    if okc is None:
+        pass
+    elif okc:
         rep.holds("R7c", cells_loop[0]["stmt"], ro, "every collected cell i in 0..cells.size() is put into the bin assignment[i]")
     else:
         rep.violation("R7c", ro.decl, ro, "not every collected cell is reassigned", "", key="DensityLegalizer::reoptimize|cells loop incomplete")
-    if okb:
+    if okb is None:
+        pass
+    elif okb:
         rep.holds("R7c", bins_loop[0]["stmt"], ro, "every bin b in 0..bins.size() receives its list through setBinCells")
     else:
         rep.violation("R7c", ro.decl, ro, "not every bin receives its list", "", key="DensityLegalizer::reoptimize|bins loop incomplete")
@@ -148,17 +158,28 @@ def run(ctx, rep, tier):
     rb = prog.func1(CQ + "DensityLegalizer::rebisect")
     sets = calls_to(rb, H + "setBinCells")
     ins = [x for x in walk(rb.body) if x.get("kind") == "CXXMemberCallExpr" and callee_info(x)["name"] == "insert" and
-           pretty(canon(callee_info(x)["obj"])) == "cells"]
-    srcs = sorted(pretty(canon(callee_info(x)["args"][1]))[:40] for x in ins)
-    tg = sorted("%s,%s" % (pretty(canon(callee_info(x)["args"][0])), pretty(canon(callee_info(x)["args"][1]))) for x in sets)
-    halves = sorted(pretty(canon(callee_info(x)["args"][2])) for x in sets)
-    p = [q.get("name") for q in rb.params]
-    if len(sets) == 2 and len(ins) == 2 and tg == sorted(["%s,%s" % (p[0], p[1]), "%s,%s" % (p[2], p[3])]) and halves == ["b.first", "b.second"] and \
-            all("binCells_[%s][%s]" % (a, b) in " ".join(srcs) for a, b in ((p[0], p[1]), (p[2], p[3]))):
-        rep.holds("R7d", rb.decl, rb, "rebisect: cells of (x1,y1) and (x2,y2) split into b.first -> (x1,y1), b.second -> (x2,y2)")
+           canon(callee_info(x)["obj"])[0] == "var"]
+    p = [("var", q.get("id"), q.get("name")) for q in rb.params]
+    bins = [(p[0], p[1]), (p[2], p[3])] if len(p) == 4 else []
+    def bin_list(a, b_):
+        return ("index", ("index", ("field", H + "binCells_", ("this",)), a), b_)
+    srcs = []
+    for x in ins:
+        a1 = canon(callee_info(x)["args"][1]) if len(callee_info(x)["args"]) > 1 else ("none",)
+        if a1[0] == "call" and a1[1] in ("begin", "cbegin"):
+            srcs.append(a1[2])
+    tg = [(canon(callee_info(x)["args"][0]), canon(callee_info(x)["args"][1])) for x in sets]
+    halves = [canon(callee_info(x)["args"][2]) for x in sets]
+    same_split = len(halves) == 2 and all(h[0] == "field" for h in halves) and halves[0][2] == halves[1][2] and \
+        {str(halves[0][1]).split("::")[-1], str(halves[1][1]).split("::")[-1]} == {"first", "second"}
+    if not bins or len(sets) != 2 or len(ins) < 2:
+        rep.unknown("R7d", rb.decl, rb, "rebisect", "two inserts / two setBinCells calls not found (shape changed)")
+    elif sorted(map(str, srcs)) == sorted(map(str, [bin_list(*b_) for b_ in bins])) and sorted(map(str, tg)) == sorted(map(str, bins)) and same_split:
+        rep.holds("R7d", rb.decl, rb, "rebisect: the cells of both bins are split and the two halves of one split go back to the same two bins")
     else:
         rep.violation("R7d", rb.decl, rb, "rebisect does not redistribute exactly the two bins' cells to those bins",
-                      "sources %s; targets %s; halves %s" % (srcs, tg, halves), key="DensityLegalizer::rebisect|redistribution")
+                      "sources %s; targets %s; halves %s" % ([pretty(x) for x in srcs], [(pretty(a), pretty(b_)) for a, b_ in tg], [pretty(h) for h in halves]),
+                      key="DensityLegalizer::rebisect|redistribution")
     # ---- G14 ----
     ctor = [f for f in prog.func(H + "HierarchicalDensityPlacement") if len(f.params) == 2 and "vector" in qt(f.params[1])]
     if len(ctor) != 1:
@@ -166,14 +187,19 @@ def run(ctx, rep, tier):
     else:
         c = ctor[0]
         pushes = [x for x in walk(c.body) if x.get("kind") == "CXXMemberCallExpr" and callee_info(x)["name"] == "push_back" and
-                  pretty(canon(callee_info(x)["obj"])) == "allCells"]
+                  canon(callee_info(x)["obj"])[0] == "var" and "vector<int>" in qt(callee_info(x)["obj"])]
         good = False
-        for x in pushes:
+        if not pushes:
+            rep.unknown("G14", c.decl, c, "initial allocation", "list of initially allocated cells not found (shape changed)")
+            pushes = None
+        for x in (pushes or []):
             guards = ctx.guards(c, x) or []
             for gc, val, _a, _b in guards:
                 if gc[0] == "bin" and gc[1] == ">" and "cellDemand_" in pretty(gc[2]) and gc[3][0] == "lit" and str(gc[3][1]).startswith("0") and val is True:
                     good = True
-        if good:
+        if pushes is None:
+            pass
+        elif good:
             rep.holds("G14", pushes[0], c, "initial bin receives exactly the cells with cellDemand_[c] > 0")
         else:
             rep.violation("G14", c.decl, c, "initial allocation is not filtered by positive demand", "", key="HierarchicalDensityPlacement::HierarchicalDensityPlacement|initial filter")
